@@ -133,6 +133,11 @@ RULE = ('[two dimensions added after seeds C05_13 / C05_15: (vi) the STATUS spac
         'assigned as resp.stream (the statement\'s "its close()": oracle close-once, and the close count of the Fz / Fn / Fc / Wg models) and on the iterator it handed out (shown apart in the '
         'correspondence: the models never close it); 60 % of the iterable and 30 % of the file-like stream objects of every random plan have such a shape, and the stream-endings run takes the 12 object '
         'shapes in turn so that every shape meets every ending (completion, the stream raising at every call, send failing at every index, cancellation, close() raising) on both stacks] '
+        '[dimension added after seed C05_17: (viii) the LIFETIME OF THE STREAM OBJECT\'S ATTRIBUTE SET: `close` is resolvable (through __getattr__, a lazily opened proxy) only once the first read() / __next__ was entered; '
+        'the first call binds self.close; the first call replaces the class\'s close() by another callable (calls of the stale one are counted apart, `+Ns`); the instance\'s close is deleted when the stream '
+        'hands out its end marker; the first read() replaces self.read - on file-like and iterable objects, sync and async; 30 % of the closable stream objects of every random plan (+ 15 % of the file-like ones for read) '
+        'and every third plan of the stream-endings run (10 shapes in turn, every ending on both stacks). Oracle close-once, from the statement: an object that HAS a callable close() when the response ends '
+        '(completed, failed, abandoned by the server - asked of the object itself at that moment) was closed exactly once if streaming had begun; the Wg / Fz / Fc / Sse model lines get close=<has close() at the end>] '
         '[dimension added after seed C05_10: (v) response HEADERS SET BY THE APPLICATION that speak about framing / the connection are an input of every plan (main loop, stream endings, render errors, SSE): '
         'with probability 0.4 1-3 of Transfer-Encoding (chunked / identity / gzip / "gzip, chunked", half of these plans; sometimes built by two append_header calls), Connection, Content-Encoding, Trailer, TE, Upgrade, Keep-Alive, Content-Range, '
         'each spelled in one of three cases and set by set_header / append_header / set_headers(dict) / set_headers(list of pairs), before or after the other headers; the same headers travel in the `headers` argument of a raised HTTPError / HTTPStatus; '
@@ -232,7 +237,9 @@ def run(ctx):
         object handed out by its __iter__ / __aiter__ are shown apart (`+Ni`; the models close the assigned object only, so never)."""
         if probe is None:
             return 0
-        return probe.closed if not probe.iter_closed else f'{probe.closed}+{probe.iter_closed}i'
+        # (`+Ns`: calls of a close() that the object had REPLACED by another callable by then - the models call the current one only)
+        out = probe.closed if not probe.iter_closed else f'{probe.closed}+{probe.iter_closed}i'
+        return f'{out}+{probe.stale_closed}s' if probe.stale_closed else out
 
     def wres():
         class Res:
@@ -313,9 +320,10 @@ def run(ctx):
         ent = getattr(falcon.status_codes, 'HTTP_%d' % n, None)
         return f'c:{n}', ('none' if ent is None else R.hs(ent))
 
-    def has_close_w(p):
-        # a generator object has close(), too (the server calls it)
-        return p['stream'] is not None and p['stream']['kind'] in ('file', 'iter', 'gen')
+    def has_close_w(p, probe=None):
+        # a generator object has close(), too (the server calls it); an object whose attribute set changes over its lifetime: whether it
+        # has close() when the server is done (CloseableStreamIterator.close, the server's file_wrapper and the server look it up then)
+        return p['stream'] is not None and (p['stream']['kind'] == 'gen' or R.has_close_end(p, probe))
 
     def show_hdrs(hl):
         hl = [(k, R.norm_cookie(v) if k.lower() == 'set-cookie' else v) for k, v in hl]
@@ -342,13 +350,13 @@ def run(ctx):
         if R.in_model(p) and 'hdr' in snap and not rec.get('hang') and p['status_form'] != 'bytes-line':
             sv, tbl = sv_of(p)
             sess_w.case({'plan': p, 'abandon_after': abandon_after})
-            sess_w.op('wsgi ' + R.fz_line(p, snap)[5:] + f" close={1 if has_close_w(p) else 0} sv={sv} tbl={tbl} wc=1 "
+            sess_w.op('wsgi ' + R.fz_line(p, snap)[5:] + f" close={1 if has_close_w(p, probe) else 0} sv={sv} tbl={tbl} wc=1 "
                       f"ab={'-' if abandon_after is None else abandon_after}", wsgi_show(p, rec, probe))
 
     def trace_case(p, rec, probe, snap, send_fail_at):
         if R.in_model(p) and 'hdr' in snap and not rec['hang']:
             sess_t.case({'plan': p, 'send_fail_at': send_fail_at})
-            sess_t.op(R.fzt_line(p, snap, send_fail_at), R.fzt_show(rec['sent'], closes_of(probe), rec['app_exc'] is not None))
+            sess_t.op(R.fzt_line(p, snap, send_fail_at, probe), R.fzt_show(rec['sent'], closes_of(probe), rec['app_exc'] is not None))
 
     # ------------------------------------------------------------------ one run on one stack
     BASE_ONLY = (asyncio.CancelledError, GeneratorExit, R.ServerStop)
@@ -587,6 +595,17 @@ def run(ctx):
         begun = started and fs['src'] == 'stream' and not fs['render_fails'] and not sse and bodiless_obs is False
         if p['raise']:
             begun = False if not p['raise_after_fill'] else begun
+        life = p['stream'].get('life')
+        if life in R.CLOSE_LIVES:
+            # the attribute set of the object changes while it is streamed: "its close()" is the close() the object has when the
+            # response ends (completed, failed or abandoned by the server) - looked up on the object itself, now
+            has_end = probe.has_close_now()
+            ok = probe.closed == 1 if begun and has_end else probe.closed <= 1
+            ctx.oracle('close-once', ok, None if ok else f'the object assigned to resp.stream ({shape_name(p["stream"])}) has a callable close() when the response has ended '
+                       f'(has_close_at_end={has_end}, read()/__next__ calls: {probe.calls}); that close() was called {probe.closed} times after streaming had begun '
+                       f'(calls of a close() it had replaced by then: {probe.stale_closed})', case)
+            ctx.count('close_once_judged_life_' + life + ('_has_close_at_end' if has_end else '_no_close_at_end') + ('_begun' if begun else ''))
+            return
         if begun:
             # the statement's "its close()": the close() of the object the application assigned as resp.stream (probe.closed counts
             # exactly those calls; a close() on an iterator that object handed out is another method: probe.iter_closed)
@@ -910,7 +929,7 @@ def run(ctx):
             rec, probe, snap = go_wsgi(p)
             if 'hdr' in snap and not rec.get('hang'):
                 sess_w.case({'plan': p, 'invalid_status': n})
-                sess_w.op('wsgi ' + R.fz_line(p, snap)[5:] + f" close={1 if has_close_w(p) else 0} sv=c:{n} tbl=none wc=1 ab=-", wsgi_show(p, rec, probe))
+                sess_w.op('wsgi ' + R.fz_line(p, snap)[5:] + f" close={1 if has_close_w(p, probe) else 0} sv=c:{n} tbl=none wc=1 ab=-", wsgi_show(p, rec, probe))
             ctx.seen(('bad-status', n), True)
 
     # ------------------------------------------------------------------ the STATUS space, exhaustively (after seed C05_13)
@@ -1202,7 +1221,7 @@ def run(ctx):
 
     def sse_case(p, rec, probe, snap, send_fail_at):
         if sse_in_model(p) and 'hdr' in snap and not rec['hang']:
-            has_close = p['stream'] is not None and p['stream']['kind'] in ('file', 'iter')
+            has_close = R.has_close_end(p, probe)
             f = lambda v: '-' if v is None else v  # noqa: E731
             sess_s.case({'plan': p, 'send_fail_at': send_fail_at})
             sess_s.op('sse ' + R.fz_line(p, snap)[5:] + f" close={1 if has_close else 0} evs={';'.join(ev_tok(e) for e in p['sse']) or '.'} "
@@ -1287,11 +1306,15 @@ def run(ctx):
     SEND_CLASSES = ['oserror', 'cancelled', 'generator_exit', 'base']
 
     # every stream OBJECT shape: (kind, shape, also_iter) - close() on the iterable only / on the iterator only / on both / on neither
-    OBJ_SHAPES = ([(k, sh, False) for k in ('iter', 'iter-noclose') for sh in R.SHAPES] +
-                  [(k, None, ai) for k in ('file', 'file-noclose') for ai in (False, True)])
+    # + the lifetime of its attribute set (R.LIVES; after seed C05_17): close appearing with / rebound by the first call, removed at the end
+    OBJ_SHAPES = ([(k, sh, False, None) for k in ('iter', 'iter-noclose') for sh in R.SHAPES] +
+                  [(k, None, ai, None) for k in ('file', 'file-noclose') for ai in (False, True)])
+    LIFE_SHAPES = ([(k, None, False, lf) for lf in R.CLOSE_LIVES for k in ('file', 'iter')] +
+                   [('file', None, False, 'read_rebound_by_first_call'), ('iter', 'sep', False, 'close_bound_by_first_call')])
 
     def shape_name(st):
-        return st['kind'] + ('_' + st['shape'] if st.get('shape') else '') + ('_also_iterable' if st.get('also_iter') else '')
+        return (st['kind'] + ('_' + st['shape'] if st.get('shape') else '') + ('_also_iterable' if st.get('also_iter') else '') +
+                ('_' + st['life'] if st.get('life') else ''))
 
     def gen_streamed(rnd, obj=None):
         """a plan whose body is taken from a stream object with (mostly) a close() method; obj = its (kind, shape, also_iter)"""
@@ -1311,6 +1334,8 @@ def run(ctx):
                 st['shape'] = obj[1]
             if obj[2]:
                 st['also_iter'] = True
+            if obj[3]:
+                st['life'] = obj[3]
         if p['stream'] is not None:
             st.update({k: v for k, v in p['stream'].items() if k in ('truth', 'declared')})
             if st.get('declared') is not None:
@@ -1339,7 +1364,7 @@ def run(ctx):
                 if R.in_model(model_plan) and 'hdr' in snap and not rec['hang']:
                     sess_t.case({'plan': q, 'fault': fault})
                     # cf=1: close() itself fails when it is called (Fc.asgiTraceC)
-                    sess_t.op(R.fzt_line(model_plan, snap, mxf) + (' cf=1' if cf else ''), R.fzt_show(rec['sent'], closes_of(probe), rec['app_exc'] is not None))
+                    sess_t.op(R.fzt_line(model_plan, snap, mxf, probe) + (' cf=1' if cf else ''), R.fzt_show(rec['sent'], closes_of(probe), rec['app_exc'] is not None))
             ctx.seen(('ending-a', json.dumps(q, sort_keys=True, default=repr), tag, xf, send_class, cancel_at_send), True)
             ctx.count('ending_asgi_' + tag)
             return rec
@@ -1354,7 +1379,11 @@ def run(ctx):
 
         for i in range(n):
             # the object shapes in turn (each shard starts at another one): every shape meets every ending
-            p = gen_streamed(rnd, OBJ_SHAPES[(i + 5 * ctx.shard[0]) % len(OBJ_SHAPES)])
+            # (every third plan: an object whose attribute set changes while it is streamed)
+            if i % 3 == 2:
+                p = gen_streamed(rnd, LIFE_SHAPES[(i // 3 + 3 * ctx.shard[0]) % len(LIFE_SHAPES)])
+            else:
+                p = gen_streamed(rnd, OBJ_SHAPES[(i - i // 3 + 5 * ctx.shard[0]) % len(OBJ_SHAPES)])
             ctx.count('ending_plans_stream_object_' + shape_name(p['stream']))
             ncalls = len(R.stream_items(p, True)) + 1          # the call after the last item included
             rec0 = one_asgi(p, p, 'completes')
@@ -1387,7 +1416,7 @@ def run(ctx):
     def extra_runs():
         status_run()
         status_sweep()
-        endings_run(ctx.n(160, 3000))
+        endings_run(ctx.n(210, 3600))
         rerr_run(ctx.n(3000, 40000))
         ser_run(ctx.n(8000, 100000))
         sse_run(ctx.n(800, 10000))
